@@ -456,3 +456,7 @@ def main(ctx):
     # ------------------------------------------------ headers carried from another file (mc/carried.py)
     from mc.carried import carried_headers
     carried_headers(ctx, "carried-headers", [None])
+
+    # ------------------------------------------------ one SFile object used for several files (mc/sfreuse.py)
+    from mc.sfreuse import reused_object_world
+    reused_object_world(ctx, "one-object-several-files", depth=ctx.pick(4, 6))
